@@ -1,2 +1,35 @@
 //! Facade for `service.rs`.
-pub use crate::handler::{HandlerIn, HandlerOut};
+pub use crate::handler::{HandlerIn, HandlerOut, WhoAreYouRef};
+pub use crate::rpc::{Request, RequestBody, RequestId, Response, ResponseBody};
+pub use crate::service::Pong;
+
+use crate::discv5::PERMIT_BAN_LIST;
+use enr::NodeId;
+use std::net::IpAddr;
+
+/// Snapshot of the global ban list: banned IPs and banned node ids.
+pub fn ban_snapshot() -> (Vec<IpAddr>, Vec<NodeId>) {
+    let list = PERMIT_BAN_LIST.read();
+    (
+        list.ban_ips.keys().copied().collect(),
+        list.ban_nodes.keys().copied().collect(),
+    )
+}
+
+/// Snapshot of the global ban list, which is emptied.
+pub fn ban_take() -> (Vec<IpAddr>, Vec<NodeId>) {
+    let mut list = PERMIT_BAN_LIST.write();
+    let ips = list.ban_ips.drain().map(|(k, _)| k).collect();
+    let nodes = list.ban_nodes.drain().map(|(k, _)| k).collect();
+    (ips, nodes)
+}
+
+/// Resets the global permit/ban list.
+pub fn ban_reset() {
+    *PERMIT_BAN_LIST.write() = crate::PermitBanList::default();
+}
+
+/// `Response::encode`.
+pub fn response_encode(response: Response) -> Vec<u8> {
+    response.encode()
+}
